@@ -28,6 +28,7 @@ Miss == [t |-> "miss"]
 
 \* operand alphabet of inner positions
 Small == {Ref(1, 27, TRUE, FALSE), [t |-> "int", v |-> 7], [t |-> "str", s |-> "x"]}
+           \cup (IF Profile = "deepw" THEN {Ref(0, 0, FALSE, TRUE), [t |-> "name", i |-> 1]} ELSE {})
 
 Leaves == CASE Profile = "refs" -> Refs \cup Areas \cup Ref3ds \cup Area3ds
             [] Profile = "lits" -> Lits \cup Errs \cup RefsSmall
@@ -52,7 +53,7 @@ NodesLast(B, D) ==
   \cup {[t |-> "funcv", f |-> 4, args |-> <<a, b>>] : a \in B, b \in D}
   \cup {[t |-> "funcv", f |-> 1, args |-> <<a, b, c>>] : a \in B, b \in B \cup {Miss}, c \in D}
 
-Level1 == IF Profile = "deep" THEN Nodes(Small, Small) ELSE Nodes(Leaves, Leaves)
+Level1 == IF Profile \in {"deep", "deepw"} THEN Nodes(Small, Small) ELSE Nodes(Leaves, Leaves)
 Trees == CASE Depth = 0 -> Leaves
            [] Depth = 1 -> Leaves \cup Level1
            [] OTHER -> Nodes(Level1, Small) \cup NodesLast(Small, Level1)
